@@ -2,6 +2,7 @@
 From Coq Require Import Lia Permutation.
 From StgV Require Import Model.StackSpec Model.LocatorSpec Proofs.NameProofs Proofs.LocatorProofs.
 From StgV Require Import Proofs.WfBasics Proofs.WfFrame Proofs.MirrorProofs Proofs.WfTxn.
+From StgV Require Import Proofs.UncommitNames.
 
 (* ---------------------------------------------------------------- init / open *)
 
@@ -37,7 +38,7 @@ Proof.
   apply Hp in Eo as [Ho _]. eapply first_parent_plain; eauto.
 Qed.
 
-Lemma Inv_prefs : forall w p, Inv w -> Inv (mkWorld (w_objs w) (w_branch w) (w_stack w) p (w_wt w) (w_unmerged w) (w_base w)).
+Lemma Inv_prefs : forall w p, Inv w -> Inv (mkWorld (w_objs w) (w_branch w) (w_stack w) p (w_wt w) (w_unmerged w) (w_base w) (w_apc w)).
 Proof. intros w p H. apply Inv_iff in H. now apply Inv_mk. Qed.
 
 Lemma open_ok : forall p w op, Inv w -> open_stack p w = Some op -> op_ok op.
@@ -60,7 +61,7 @@ Proof.
     | None => None
     | Some (objs', so) =>
         Some (mkOpened (ensure_patch_refs
-                 (mkWorld objs' (w_branch w) (Some so) (w_prefs w) (w_wt w) (w_unmerged w) (w_base w))
+                 (mkWorld objs' (w_branch w) (Some so) (w_prefs w) (w_wt w) (w_unmerged w) (w_base w) (w_apc w))
                  (empty_state (w_branch w))) (empty_state (w_branch w)) (w_branch w) true)
     end = Some op -> op_ok op).
   { intros E. destruct (state_commit _ _ _) as [[objs' so]|] eqn:Ec; [|discriminate].
@@ -688,13 +689,40 @@ Proof.
   - intros [n c] Hp. apply in_rev in Hp. apply in_combine_r in Hp. now apply Hc.
 Qed.
 
-Lemma run_uncommit_inv : forall w n names, Inv w -> Inv (fst (run_uncommit w n names)).
+(* generated names (make_patchnames) extend the names of the stack *)
+Lemma fresh_names_ok : forall base pns,
+  names_ok base ->
+  Forall (fun n => validate n = true /\ forallb (fun d => negb (collides n d)) base = true) pns ->
+  ForallOrdPairs (fun a b => collides a b = false) pns ->
+  names_ok (pns ++ base).
 Proof.
-  intros w n names Hi. unfold run_uncommit.
+  intros base. induction pns as [|n pns IH]; intros Hb Hv Hp; [exact Hb|].
+  inversion Hv as [|? ? [Hvn Hfn] Hv']; subst. inversion Hp as [|? ? Hpn Hp']; subst.
+  cbn [app]. apply names_ok_cons; [now apply IH|exact Hvn|].
+  intros m Hm. apply in_app_or in Hm as [Hm|Hm].
+  - rewrite Forall_forall in Hpn. now apply Hpn.
+  - rewrite forallb_forall in Hfn. apply negb_true_iff. now apply Hfn.
+Qed.
+
+Lemma gen_names_ok : forall lower_s, LowerOK lower_s -> forall objs s commits pns,
+  make_patchnames lower_s objs s commits = Some pns ->
+  length pns = length commits /\ (names_ok (all_of s) -> names_ok (pns ++ all_of s)).
+Proof.
+  intros lower_s HL objs s commits pns E.
+  destruct (uncommit_names_fresh lower_s HL objs s commits) as [pns' [E' [Hl [Hv Hp]]]].
+  rewrite E' in E. injection E as <-. split; [exact Hl|].
+  intros Hn. now apply fresh_names_ok.
+Qed.
+
+Lemma run_uncommit_inv : forall lower_s, LowerOK lower_s ->
+  forall w n names, Inv w -> Inv (fst (run_uncommit lower_s w n names)).
+Proof.
+  intros lower_s HL w n names Hi. unfold run_uncommit.
   destruct (fold_right _ _ names) as [pnames|] eqn:Ep; [|exact Hi]. apply parsed_names_valid in Ep.
   destruct (open_stack PAuto w) as [op|] eqn:Eo; [apply (open_ok _ _ _ Hi) in Eo|exact Hi].
   destruct (negb (head_top_ok op)); [inv_leaf|].
   pose proof Eo as [Hiw [Hs Hb]]. pose proof Hs as [Hn _]. apply Inv_iff in Hiw as [[Hcl _] _].
+  cbv zeta.
   match goal with |- Inv (fst (match ?p with inl _ => _ | inr _ => _ end)) =>
     assert (Hplan : forall commits pns, p = inr (commits, pns) ->
               names_ok (pns ++ all_of (op_state op))
@@ -703,14 +731,22 @@ Proof.
   { intros commits pns E. destruct n as [k|].
     - destruct (walk_down _ _ _) as [cs|] eqn:Ew; [|discriminate].
       destruct pnames as [|prefix [|? ?]]; try discriminate.
-      destruct (forallb _ _) eqn:Ef; [|discriminate].
-      destruct (check_patchnames _ _) eqn:Ec; [|discriminate]. injection E as <- <-.
-      split; [|eapply walk_down_patch; eauto].
-      apply check_patchnames_ok; [exact Hn| |exact Ec].
-      apply Forall_forall. intros x Hx. now apply (proj1 (forallb_forall _ _) Ef).
-    - destruct (check_patchnames _ _) eqn:Ec; [|discriminate]. cbn [negb] in E.
-      destruct (walk_down _ _ _) as [cs|] eqn:Ew; [|discriminate]. injection E as <- <-.
-      split; [|eapply walk_down_patch; eauto]. now apply check_patchnames_ok. }
+      + destruct (make_patchnames _ _ _ _) as [gen|] eqn:Eg; [|discriminate]. injection E as <- <-.
+        split; [|eapply walk_down_patch; eauto].
+        now apply (proj2 (gen_names_ok lower_s HL _ _ _ _ Eg)).
+      + destruct (forallb _ _) eqn:Ef; [|discriminate].
+        destruct (check_patchnames _ _) eqn:Ec; [|discriminate]. injection E as <- <-.
+        split; [|eapply walk_down_patch; eauto].
+        apply check_patchnames_ok; [exact Hn| |exact Ec].
+        apply Forall_forall. intros x Hx. now apply (proj1 (forallb_forall _ _) Ef).
+    - destruct pnames as [|pn0 pnames'].
+      + destruct (walk_down _ _ _) as [cs|] eqn:Ew; [|discriminate].
+        destruct (make_patchnames _ _ _ _) as [gen|] eqn:Eg; [|discriminate]. injection E as <- <-.
+        split; [|eapply walk_down_patch; eauto].
+        now apply (proj2 (gen_names_ok lower_s HL _ _ _ _ Eg)).
+      + destruct (check_patchnames _ _) eqn:Ec; [|discriminate]. cbn [negb] in E.
+        destruct (walk_down _ _ _) as [cs|] eqn:Ew; [|discriminate]. injection E as <- <-.
+        split; [|eapply walk_down_patch; eauto]. now apply check_patchnames_ok. }
   - clear Hplan. revert Epl. cmd_cases; intros Epl; first [discriminate|injection Epl as <-; inv_leaf].
   - destruct (Hplan commits pns eq_refl) as [Hnn Hcc]. clear Hplan Epl.
     destruct (Nat.eqb (length commits) (length pns)) eqn:El; cbn [negb]; [|inv_leaf].
@@ -1062,7 +1098,7 @@ Qed.
 
 Lemma Inv_put_plain : forall w ps tr m sj wt um,
   Inv w -> (forall p, In p ps -> is_plain (w_objs w) p) ->
-  Inv (mkWorld (w_objs w ++ [plain ps tr m sj]) (length (w_objs w)) (w_stack w) (w_prefs w) wt um (w_base w)).
+  Inv (mkWorld (w_objs w ++ [plain ps tr m sj]) (length (w_objs w)) (w_stack w) (w_prefs w) wt um (w_base w) (w_apc w)).
 Proof.
   intros w ps tr m sj wt um Hi Hp. apply Inv_iff in Hi as [Hok [Hbr Hst]]. apply Inv_mk.
   split; [now apply store_ok_put_plain|]. split; [apply plain_new|].
@@ -1307,7 +1343,7 @@ Qed.
 Lemma rebase_reopened : forall op o w2 target wt um op3 op4,
   transact op o (fun t => TOk (fst (pop_patches (fun n => mem n (s_applied (op_state op))) t))) MOp
     = (w2, X0) ->
-  open_stack PRequire (mkWorld (w_objs w2) target (w_stack w2) (w_prefs w2) wt um (w_base w2)) = Some op3 ->
+  open_stack PRequire (mkWorld (w_objs w2) target (w_stack w2) (w_prefs w2) wt um (w_base w2) (w_apc w2)) = Some op3 ->
   log_extmods_first op3 = Some op4 ->
   s_applied (op_state op4) = []
   /\ s_unapplied (op_state op4) = s_applied (op_state op) ++ s_unapplied (op_state op)
@@ -1343,7 +1379,7 @@ Proof.
 Qed.
 
 Lemma Inv_reset_hard : forall w o wt um,
-  Inv w -> is_plain (w_objs w) o -> Inv (mkWorld (w_objs w) o (w_stack w) (w_prefs w) wt um (w_base w)).
+  Inv w -> is_plain (w_objs w) o -> Inv (mkWorld (w_objs w) o (w_stack w) (w_prefs w) wt um (w_base w) (w_apc w)).
 Proof.
   intros w o wt um Hi Ho. apply Inv_iff in Hi as [Hok [_ Hsk]]. apply Inv_mk.
   split; [exact Hok|]. split; [exact Ho|exact Hsk].
@@ -1372,7 +1408,7 @@ Proof.
   cbn [fst] in Hm. destruct Hm as [Hi2 He2]. destruct x; try exact Hi2.
   pose proof (Inv_reset_hard w2 target (tree_of (w_objs w2) target) false Hi2
                 (is_plain_ext _ _ _ He2 Et)) as Hi3.
-  set (w3 := mkWorld _ _ _ _ _ _ _) in *.
+  set (w3 := mkWorld _ _ _ _ _ _ _ _) in *.
   destruct (open_stack PRequire w3) as [op3|] eqn:Eo3; [|exact Hi3].
   destruct (log_extmods_first op3) as [op4|] eqn:El; [|apply (open_ok _ _ _ Hi3) in Eo3; inv_leaf].
   destruct (rebase_reopened _ _ _ _ _ _ _ _ Etr Eo3 El) as [Ea4 [Eu4 _]].
@@ -1608,6 +1644,81 @@ Proof.
   intros W. apply squash_closure_wf; [exact W|]. now apply squash_pre_begin.
 Qed.
 
+(* ---------------------------------------------------------------- pick *)
+
+Lemma pick_given_valid : forall nm n, pick_given nm = Some (Some n) -> validate n = true.
+Proof.
+  intros [x|] n H; cbn [pick_given] in H; [|discriminate].
+  destruct (from_str x) as [m|] eqn:E; [|discriminate]. injection H as <-. now apply from_str_valid in E.
+Qed.
+
+Lemma pick_source_plain : forall op src o,
+  op_ok op -> pick_source op src = Some o -> is_plain (w_objs (op_world op)) o.
+Proof.
+  intros op src o [Hi [Hs Hb]] H. apply Inv_iff in Hi as [[Hcl _] [Hbr _]].
+  destruct src as [n|k|k]; cbn [pick_source] in H.
+  - destruct Hs as [_ [_ [_ [Hp _]]]]. now apply (Hp n o) in H as [H _].
+  - eapply ancestor_plain; [exact Hcl|exact Hb|exact H].
+  - eapply ancestor_plain; [exact Hcl|exact Hbr|exact H].
+Qed.
+
+Lemma pick_cand_valid : forall lower_s, LowerOK lower_s ->
+  forall op src nm given o pn0,
+  op_ok op -> pick_given nm = Some given -> pick_source op src = Some o ->
+  pick_cand lower_s op src given o = Ok pn0 -> validate pn0 = true.
+Proof.
+  intros lower_s HL op src nm given o pn0 [_ [Hs _]] Hg Hsrc Hc. unfold pick_cand in Hc.
+  destruct given as [n|].
+  - injection Hc as <-. now apply (pick_given_valid nm).
+  - assert (Hm : forall raw, make lower_s raw false (Some 30%N) = Ok pn0 -> validate pn0 = true).
+    { intros raw E. destruct (make_valid lower_s HL raw false (Some 30%N)) as [n [En Hv]]. congruence. }
+    destruct src as [n|k|k]; [|now apply Hm in Hc|now apply Hm in Hc].
+    injection Hc as <-. cbn [pick_source] in Hsrc.
+    destruct Hs as [[_ [Hv _]] [_ [Hall _]]]. rewrite Forall_forall in Hv. apply Hv.
+    apply Hall. congruence.
+Qed.
+
+Lemma pick_op_ok : forall op src o c par,
+  op_ok op -> pick_source op src = Some o -> first_parent (w_objs (op_world op)) o = Some par ->
+  op_ok (pick_op op c par).
+Proof.
+  intros op src o c par Hop Hsrc Hpar. unfold pick_op, pick_commit. apply op_ok_put; [exact Hop|].
+  intros p [<-|[]]. pose proof (pick_source_plain op src o Hop Hsrc) as Ho.
+  destruct Hop as [Hi _]. apply Inv_iff in Hi as [[Hcl _] _]. eapply first_parent_plain; eauto.
+Qed.
+
+Lemma pick_body_wf : forall pn o na t,
+  wf_txn t -> names_ok (pn :: t_all t) -> is_patch_commit (t_objs t) o -> good (pick_body pn o na t).
+Proof.
+  intros pn o na t W Hn Ho. unfold pick_body.
+  destruct (squash_finish_pre pn o [] (negb na) t W Hn Ho (NoDup_nil _)) as (t3 & -> & W3 & _ & _ & Hd3 & Hin3).
+  { intros n []. }
+  cbn [tbind]. destruct na; cbn [negb] in *; [exact W3|].
+  eapply res_sat_impl; [apply push_patches_wf; [exact W3|exact Hd3|exact Hin3]|intros t' P; apply P].
+Qed.
+
+Lemma pick_names_ok : forall pn0 pn s,
+  names_ok (all_of s) -> validate pn0 = true -> uniquify pn0 [] (all_of s) = UOk pn ->
+  names_ok (pn :: all_of s).
+Proof.
+  intros pn0 pn s Hn Hv E. pose proof (uniquify_names_ok pn0 (all_of s) Hn Hv) as H. now rewrite E in H.
+Qed.
+
+Lemma run_pick_inv : forall lower_s, LowerOK lower_s ->
+  forall w src nm na, Inv w -> Inv (fst (run_pick lower_s w src nm na)).
+Proof.
+  intros lower_s HL w src nm na Hi.
+  destruct (run_pick_case lower_s w src nm na) as
+    [_|_|op Eo|op given o Eo _ _ _ _|op given o pn0 Eo _ _ _ _ _|op given o pn0 pn c par Eo Eg _ _ Es Ec Eu _ Ep];
+    cbn [fst]; try exact Hi; apply (open_ok _ _ _ Hi) in Eo; try (destruct Eo as [Ho _]; exact Ho).
+  pose proof Eo as [_ [[Hn _] _]].
+  apply transact_inv; [eapply pick_op_ok; eauto| |apply frame_pick_body].
+  intros W. apply pick_body_wf; [exact W| |].
+  - change (t_all (begin_txn (pick_op op c par) (pick_opts (w_apc (op_world op))))) with (all_of (op_state op)).
+    eapply pick_names_ok; [exact Hn| |exact Eu]. eapply pick_cand_valid; eauto.
+  - apply patch_commit_new.
+Qed.
+
 (* ---------------------------------------------------------------- the theorems *)
 
 Theorem step_inv : forall lower_s, LowerOK lower_s ->
@@ -1638,7 +1749,9 @@ Proof.
   - now apply run_edit_inv.
   - now apply run_rebase_inv.
   - now apply run_squash_inv.
+  - now apply run_pick_inv.
   - destruct (open_stack PAllow w) as [op|] eqn:Eo; [|exact Hi]. now apply (open_ok _ _ _ Hi) in Eo as [H _].
+  - now apply run_git_inv.
   - now apply run_git_inv.
   - now apply run_git_inv.
   - now apply run_git_inv.
